@@ -78,6 +78,22 @@ int main(int argc, char **argv) {
     printf("{\"ok\": %s, \"why\": \"%s\"}\n", why.empty() ? "true" : "false", why.c_str());
     return why.empty() ? 0 : 1;
   }
+  // reset <pc> <areg> <breg> <oreg>: plant a power-on register state, assert reset with the clock low, give one rising
+  // edge, release reset with the clock low: the registers must be the simulator's start state (all zero)
+  if (argc >= 6 && !strcmp(argv[1], "reset")) {
+    Dut d; uint32_t *M = d.mem(); memset(M, 0, 524288 * 4);
+    auto *r = d.r();
+    r->pc_q = strtoul(argv[2], 0, 0) & 0x1FFFFF; r->__PVT__areg_q = strtoul(argv[3], 0, 0); r->__PVT__breg_q = strtoul(argv[4], 0, 0); r->__PVT__oreg_q = strtoul(argv[5], 0, 0);
+    d.top->i_clk = 0; d.top->i_rst = 1; d.top->eval();
+    d.top->i_clk = 1; d.top->eval();
+    d.top->i_clk = 0; d.top->eval();
+    d.top->i_rst = 0; d.top->eval();
+    std::string why;
+    if (r->pc_q != 0) why = "pc"; else if (r->__PVT__areg_q != 0) why = "areg"; else if (r->__PVT__breg_q != 0) why = "breg"; else if (r->__PVT__oreg_q != 0) why = "oreg";
+    printf("{\"ok\": %s, \"why\": \"%s after reset is %u, the simulator starts with 0\", \"regs\": [%u, %u, %u, %u]}\n", why.empty() ? "true" : "false", why.c_str(),
+           why == "pc" ? r->pc_q : why == "areg" ? r->__PVT__areg_q : why == "breg" ? r->__PVT__breg_q : r->__PVT__oreg_q, r->pc_q, r->__PVT__areg_q, r->__PVT__breg_q, r->__PVT__oreg_q);
+    return why.empty() ? 0 : 1;
+  }
   if (argc >= 4 && !strcmp(argv[1], "sweep")) {
     std::mt19937_64 rng(strtoull(argv[2], 0, 10)); long n = atol(argv[3]);
     Dut d; uint32_t *M = d.mem(); memset(M, 0, 524288 * 4);
